@@ -270,7 +270,9 @@ class FakeSocket:
         self.log = []
 
     def setsockopt(self, *a):
-        pass
+        self.options = getattr(self, "options", {})
+        if len(a) == 3:
+            self.options[(a[0], a[1])] = a[2]
 
     def settimeout(self, t):
         self.timeout = t
@@ -318,6 +320,7 @@ class FakeSocket:
         self.net.log.append(("sendall", self.peer, len(data), type(r).__name__ if r is not None else "ok"))
         if r is not None:
             raise r
+        self._mine = getattr(self, "_mine", []) + [len(self.net.sent)]
         self.net.sent.append((self.peer, bytes(data)))
 
     def send(self, data, *flags):
@@ -328,11 +331,25 @@ class FakeSocket:
         self.net.log.append(("send", self.peer, n, type(r).__name__ if r is not None else "ok"))
         if r is not None:
             raise r
+        self._mine = getattr(self, "_mine", []) + [len(self.net.sent)]
         self.net.sent.append((self.peer, part))
         return n
 
     def close(self):
         self.closed = True
+        # SO_LINGER on with a zero linger time makes close() ABORTIVE: what the peer's kernel has not taken yet (here:
+        # everything beyond its receive buffer, net.rcvbuf bytes) is thrown away and the peer gets a reset
+        import struct
+        lg = getattr(self, "options", {}).get((_real_socket.SOL_SOCKET, _real_socket.SO_LINGER))
+        if isinstance(lg, (bytes, bytearray)) and len(lg) >= 8:
+            onoff, secs = struct.unpack("ii", bytes(lg[:8]))
+            if onoff and secs == 0:
+                room = getattr(self.net, "rcvbuf", 131072)
+                for i in getattr(self, "_mine", []):
+                    peer, b = self.net.sent[i]
+                    self.net.sent[i] = (peer, b[:max(room, 0)])
+                    room -= len(b)
+                self.net.aborted = True
 
 
 class _FakeSocketModule:
